@@ -28,28 +28,67 @@ let rd_hpw () = let t = next () in
   let h = String.sub t 1 (String.length t - 1) in
   let b = if h = "" then [] else bytes_of_hex h in
   if t.[0] = 'H' then Some (toy_hash b) else Some b
+let rd_z () = z_of_dec (next ())
+let rd_quota () = let d = rd_z () in let m = rd_z () in { q_days = d; q_mb = m }
 let rd_user () =
-  let n = rd_obytes () in let p = rd_obytes () in let h = rd_hpw () in let r = rd_bytes () in
-  { u_name = n; u_pw = p; u_hpw = h; u_rest = r }
+  let n = rd_obytes () in let p = rd_obytes () in let h = rd_hpw () in
+  let q = rd_list rd_quota in let r = rd_bytes () in
+  { u_name = n; u_pw = p; u_hpw = h; u_quotas = q; u_rest = r }
+let rd_adv () = match next () with
+  | "N" -> None
+  | _ -> let raw = rd_bytes () in let iv = rd_bytes () in let ns = rd_oz () in
+         Some { adv_raw = raw; adv_interval = iv; adv_interval_ns = ns }
+let rd_tp () = match next () with
+  | "N" -> None
+  | _ -> let raw = rd_bytes () in let ok = rd_bool () in Some { tp_raw = raw; tp_ok = ok }
+let rd_proxy () =
+  let n = rd_bytes () in let pr = rd_z () in let h = rd_bytes () in let po = rd_z () in
+  let au = rd_bytes () in let ap = rd_bytes () in
+  { px_name = n; px_proto = pr; px_host = h; px_port = po; px_auth_user = au; px_auth_pw = ap }
+let rd_rule () =
+  let ips = rd_list rd_bool in let doms = rd_list rd_bytes in let act = rd_z () in let pn = rd_list rd_bytes in
+  { ru_ip_ok = ips; ru_domains = doms; ru_action = act; ru_proxies = pn }
+let rd_egress () = match next () with
+  | "N" -> None
+  | _ -> let raw = rd_bytes () in let ps = rd_list rd_proxy in let rs = rd_list rd_rule in
+         Some { eg_raw = raw; eg_proxies = ps; eg_rules = rs }
+let rd_host () = let d = rd_bytes () in let n = rd_bytes () in let ok = rd_bool () in
+  { h_domain = d; h_norm = n; h_ip_ok = ok }
+let rd_dns () = match next () with
+  | "N" -> None
+  | _ -> let raw = rd_bytes () in let hs = rd_list rd_host in Some { dns_raw = raw; dns_hosts = hs }
 let rd_pb () =
   let p = rd_oz () in let pr = rd_oz () in let r = rd_obytes () in
   { pb_port = p; pb_proto = pr; pb_range = r }
 let rd_server () =
   let ports = (match next () with "N" -> None | _ -> Some (rd_list rd_pb)) in
   let users = rd_list rd_user in
-  let adv = rd_obytes () in let log = rd_oz () in let mtu = rd_oz () in
-  let eg = rd_obytes () in let dns = rd_obytes () in let tp = rd_obytes () in
+  let adv = rd_adv () in let log = rd_oz () in let mtu = rd_oz () in
+  let eg = rd_egress () in let dns = rd_dns () in let tp = rd_tp () in
   { s_ports = ports; s_users = users; s_adv = adv; s_log = log; s_mtu = mtu; s_egress = eg; s_dns = dns; s_tp = tp }
+let rd_ep () =
+  let ip = rd_bytes () in let ipok = rd_bool () in let d = rd_bytes () in let dip = rd_bool () in
+  let bs = rd_list rd_pb in
+  { se_ip = ip; se_ip_ok = ipok; se_domain = d; se_domain_is_ip = dip; se_bindings = bs }
+let rd_dialer () = match next () with
+  | "N" -> None
+  | _ -> let pr = rd_z () in let h = rd_bytes () in let po = rd_z () in let ha = rd_bool () in
+         let u = rd_bytes () in let p = rd_bytes () in
+         Some { dl_proto = pr; dl_host = h; dl_port = po; dl_has_auth = ha; dl_auth_user = u; dl_auth_pw = p }
 let rd_profile () =
   let n = rd_obytes () in
   let u = (match next () with "N" -> None | _ -> Some (rd_user ())) in
+  let sv = rd_list rd_ep in let mtu = rd_oz () in let mux = rd_oz () in let hs = rd_oz () in
+  let tp = rd_tp () in let dl = rd_dialer () in
   let r = rd_bytes () in
-  { p_name = n; p_user = u; p_rest = r }
+  { p_name = n; p_user = u; p_servers = sv; p_mtu = mtu; p_mux = mux; p_hs = hs; p_tp = tp; p_dialer = dl; p_rest = r }
+let rd_auth () = let raw = rd_bytes () in let u = rd_bytes () in let p = rd_bytes () in
+  { au_raw = raw; au_user = u; au_pw = p }
 let rd_client () =
   let ps = rd_list rd_profile in
-  let active = rd_obytes () in let rpc = rd_oz () in let s5 = rd_oz () in let adv = rd_obytes () in
+  let active = rd_obytes () in let rpc = rd_oz () in let s5 = rd_oz () in let adv = rd_adv () in
   let log = rd_oz () in let s5lan = rd_obool () in let http = rd_oz () in let httplan = rd_obool () in
-  let auth = (match next () with "N" -> None | _ -> Some (rd_list rd_bytes)) in
+  let auth = (match next () with "N" -> None | _ -> Some (rd_list rd_auth)) in
   { c_profiles = ps; c_active = active; c_rpc = rpc; c_socks5 = s5; c_adv = adv; c_log = log; c_s5lan = s5lan;
     c_http = http; c_httplan = httplan; c_auth = auth }
 
@@ -61,18 +100,31 @@ let pr_hpw = function
   | None -> "N"
   | Some (x :: rest) when int_of_n x = 256 -> "H" ^ hx rest
   | Some l -> "S" ^ hx l
-let pr_user u = String.concat " " [pr_obytes u.u_name; pr_obytes u.u_pw; pr_hpw u.u_hpw; hex_of_bytes u.u_rest]
 let pr_list f l = String.concat " " (string_of_int (List.length l) :: List.map f l)
+let pr_user u = String.concat " " [pr_obytes u.u_name; pr_obytes u.u_pw; pr_hpw u.u_hpw;
+  pr_list (fun q -> dec_of_z q.q_days ^ " " ^ dec_of_z q.q_mb) u.u_quotas; hex_of_bytes u.u_rest]
+let hb = hex_of_bytes
+let pr_adv = function None -> "N" | Some a -> String.concat " " ["A"; hb a.adv_raw; hb a.adv_interval; pr_oz a.adv_interval_ns]
+let pr_tp = function None -> "N" | Some t -> String.concat " " ["T"; hb t.tp_raw; bool_s t.tp_ok]
+let pr_egress = function None -> "N" | Some e -> String.concat " " ["E"; hb e.eg_raw;
+  pr_list (fun p -> String.concat " " [hb p.px_name; dec_of_z p.px_proto; hb p.px_host; dec_of_z p.px_port; hb p.px_auth_user; hb p.px_auth_pw]) e.eg_proxies;
+  pr_list (fun r -> String.concat " " [pr_list bool_s r.ru_ip_ok; pr_list hb r.ru_domains; dec_of_z r.ru_action; pr_list hb r.ru_proxies]) e.eg_rules]
+let pr_dns = function None -> "N" | Some d -> String.concat " " ["D"; hb d.dns_raw;
+  pr_list (fun h -> String.concat " " [hb h.h_domain; hb h.h_norm; bool_s h.h_ip_ok]) d.dns_hosts]
 let pr_pb b = String.concat " " [pr_oz b.pb_port; pr_oz b.pb_proto; pr_obytes b.pb_range]
 let pr_server s =
   String.concat " " [(match s.s_ports with None -> "N" | Some l -> "L " ^ pr_list pr_pb l); pr_list pr_user s.s_users;
-    pr_obytes s.s_adv; pr_oz s.s_log; pr_oz s.s_mtu; pr_obytes s.s_egress; pr_obytes s.s_dns; pr_obytes s.s_tp]
+    pr_adv s.s_adv; pr_oz s.s_log; pr_oz s.s_mtu; pr_egress s.s_egress; pr_dns s.s_dns; pr_tp s.s_tp]
+let pr_ep s = String.concat " " [hb s.se_ip; bool_s s.se_ip_ok; hb s.se_domain; bool_s s.se_domain_is_ip; pr_list pr_pb s.se_bindings]
+let pr_dialer = function None -> "N" | Some d -> String.concat " " ["Y"; dec_of_z d.dl_proto; hb d.dl_host; dec_of_z d.dl_port;
+  bool_s d.dl_has_auth; hb d.dl_auth_user; hb d.dl_auth_pw]
 let pr_profile p =
-  String.concat " " [pr_obytes p.p_name; (match p.p_user with None -> "N" | Some u -> "U " ^ pr_user u); hex_of_bytes p.p_rest]
+  String.concat " " [pr_obytes p.p_name; (match p.p_user with None -> "N" | Some u -> "U " ^ pr_user u);
+    pr_list pr_ep p.p_servers; pr_oz p.p_mtu; pr_oz p.p_mux; pr_oz p.p_hs; pr_tp p.p_tp; pr_dialer p.p_dialer; hex_of_bytes p.p_rest]
 let pr_client c =
-  String.concat " " [pr_list pr_profile c.c_profiles; pr_obytes c.c_active; pr_oz c.c_rpc; pr_oz c.c_socks5; pr_obytes c.c_adv;
+  String.concat " " [pr_list pr_profile c.c_profiles; pr_obytes c.c_active; pr_oz c.c_rpc; pr_oz c.c_socks5; pr_adv c.c_adv;
     pr_oz c.c_log; pr_obool c.c_s5lan; pr_oz c.c_http; pr_obool c.c_httplan;
-    (match c.c_auth with None -> "N" | Some l -> "L " ^ pr_list hex_of_bytes l)]
+    (match c.c_auth with None -> "N" | Some l -> "L " ^ pr_list (fun a -> String.concat " " [hb a.au_raw; hb a.au_user; hb a.au_pw]) l)]
 
 let pr_binding (up, proto) = match up with
   | UPort p -> "P" ^ dec_of_z p ^ "/" ^ dec_of_z proto
@@ -125,6 +177,10 @@ let () =
            | None -> "ERR"
            | Some (a, b) -> "OK " ^ dec_of_z (xb_zadd (xb_zadd b (xb_zopp a)) (z_of_int 1)))
         | "FB" -> if flat_ok (rd_list rd_pb) then "OK" else "ERR"
+        | "VS" -> string_of_int (int_of_n (validate_full_server (rd_server ())))
+        | "VP" -> string_of_int (int_of_n (validate_server_patch (rd_server ())))
+        | "VC" -> string_of_int (int_of_n (validate_full_client (rd_client ())))
+        | "VK" -> string_of_int (int_of_n (validate_client_patch (rd_client ())))
         | "AT" -> (match atoi (rd_bytes ()) with None -> "ERR" | Some v -> dec_of_z v)
         | _ -> "?"
       with Failure m -> "?parse " ^ m
